@@ -28,8 +28,11 @@ R5 = "helper.mu,Lambda=Kernel.slotsImp"
 
 
 def plan(ctx):
-    n = 90 if ctx.thorough else 36
-    return [("problem", i) for i in range(n)] + [("higheccen", i) for i in range(8 if ctx.thorough else 3)]
+    n = 160 if ctx.thorough else 36
+    cases = [("problem", i) for i in range(n)] + [("higheccen", i) for i in range(12 if ctx.thorough else 3)]
+    if ctx.thorough:      # larger data sets (own case kind so that a replay does not depend on the tier)
+        cases += [("problemL", i) for i in range(40)]
+    return cases
 
 
 def nontrivial_variants(pr, c, M, theta, ll0, tol):
@@ -136,9 +139,9 @@ def slots_vs_lean(ctx, g, pr, c, hx):
                      dict(mu=want_mu, Lambda=want_lam), "constructor slot arithmetic must match Kernel.slotsImp: " + "; ".join(bad[:4]))
 
 
-def run_problem(ctx, g, rng, high_e=False):
-    pr = scen.make_problem(rng, n=int(rng.integers(1, 13)))
-    N = 6 if not ctx.thorough else 10
+def run_problem(ctx, g, rng, high_e=False, large=False):
+    pr = scen.make_problem(rng, n=int(rng.integers(13, 25)) if large else int(rng.integers(1, 13)))
+    N = 6
     s_values = None
     if pr.desc["s"]["kind"] == "sampled":
         # mixed jitter inside ONE call: rows with s == 0 after rows with s > 0 (state left behind by one sample
@@ -266,7 +269,7 @@ def setup(ctx):
 def run_case(ctx, g):
     ctx.seed = g.get("seed", ctx.seed)
     rng = ctx.case_rng(g["kind"], g["index"])
-    run_problem(ctx, g, rng, high_e=(g["kind"] == "higheccen"))
+    run_problem(ctx, g, rng, high_e=(g["kind"] == "higheccen"), large=(g["kind"] == "problemL"))
 
 
 def post(ctx):
